@@ -142,14 +142,13 @@ class CountingBloomFilter(BloomFilter):
         # NOTE: this will increment indices each time it is viewed. Not sure if that is "correct"
         #       if not then we will need to update this and the C version
         indices = [hashes[i] % self._bloom_length for i in range(self._number_hashes)]
-        vals = [self._bloom[k] + num_els for k in indices]
-        for i, v in enumerate(vals):
-            k = indices[i]
+        vals = [0] * len(indices)
+        for i, k in enumerate(indices):
+            v = self._bloom[k] + num_els  # This keeps the original methodology
             if v > UINT32_T_MAX:
-                self._bloom[k] = UINT32_T_MAX
-                vals[i] = UINT32_T_MAX
-            else:
-                self._bloom[k] += num_els  # This keeps the original methodology
+                v = UINT32_T_MAX
+            self._bloom[k] = v
+            vals[i] = v
         self.elements_added = min(self.elements_added + num_els, UINT64_T_MAX)
         return min(vals)
 
